@@ -223,18 +223,37 @@ def core(v):
             return v
 
 
+def place_of(v):
+    """Rendered access path if `v` is a parameter or a selection chain over one, else None."""
+    v = core(v)
+    if isinstance(v, Param):
+        return v.name
+    if isinstance(v, Sel):
+        b = place_of(v.base)
+        if b is not None:
+            return b + v.sel
+    return None
+
+
 def roots(v, acc=None):
-    """Set of root places / consts / callees a value depends on."""
+    """What a value depends on: bare strings are places (selection chains over parameters);
+    'def:<path>' items, 'call:<callee>' functions it flows through, 'der@', 'closure@', 'atom:'."""
     if acc is None:
         acc = set()
-    v0 = v
     if isinstance(v, (Param, Sel)):
-        acc.add(core(v).r())
+        p = place_of(v)
+        if p is not None:
+            acc.add(p)
+        else:
+            acc.add("sel:" + v.sel)
+            roots(v.base, acc)
     elif isinstance(v, Const):
         pass
     elif isinstance(v, Def):
-        acc.add(v.path)
+        acc.add("def:" + v.path)
     elif isinstance(v, Via):
+        if v.callee:
+            acc.add("via:" + v.callee)
         roots(v.inner, acc)
     elif isinstance(v, CallV):
         acc.add("call:" + v.callee)
@@ -265,6 +284,7 @@ def roots(v, acc=None):
             roots(v.base, acc)
     elif isinstance(v, DerV):
         acc.add("der@%s" % (v.node or {}).get("sp"))
+        _item_roots(v.items, acc)
     elif isinstance(v, ClosureV):
         acc.add(v.r())
     elif isinstance(v, TagV):
@@ -274,6 +294,30 @@ def roots(v, acc=None):
         for a in F.atoms(v.f):
             acc.add("atom:" + F.show_atom(a))
     return acc
+
+
+def _item_roots(items, acc):
+    for it in items:
+        if it.get("fn"):
+            acc.add("emit:" + it["fn"])
+        for a in it.get("args", []):
+            roots(a, acc)
+        if "v" in it and isinstance(it["v"], V):
+            roots(it["v"], acc)
+        if "tag" in it and isinstance(it["tag"], V):
+            roots(it["tag"], acc)
+        if "over" in it and isinstance(it["over"], V):
+            roots(it["over"], acc)
+        if "c" in it:
+            _item_roots(it["c"], acc)
+
+
+def places(v):
+    return {r for r in roots(v) if ":" not in r.split(".")[0].split("[")[0].split("#")[0].split("?")[0] and not r.startswith(("der@", "closure@"))}
+
+
+def calls_of(v):
+    return {r.split(":", 1)[1] for r in roots(v) if r.startswith(("call:", "via:", "emit:"))}
 
 
 class Sink:
@@ -287,6 +331,7 @@ class Act:
         self.fn = fn
         self.ret = False
         self.rets = []
+        self.fails = []
 
 
 class InterpError(Exception):
@@ -316,6 +361,7 @@ class Interp:
         self.tries = []      # (value, node, fn)
         self.muts = []       # (target value, kind, payload, node, fn)
         self.discards = []   # (value, node, fn, how)
+        self.fails = []      # (cond, Err value, node, fn): explicit `return Err(..)`
         self.inline_always = set(inline_always)
         self.no_inline = set(no_inline)
         self.depth = 0
@@ -747,18 +793,22 @@ class Interp:
                 tv = self.ev(n["t"], fr)
             finally:
                 self.ctx.pop()
-            alts.append((c, tv))
+            if n["t"].get("ty") != "!":
+                alts.append((c, tv))
         if n.get("e") is not None and c is not True:
             self.ctx.append(("cond", Not(c)))
             try:
                 evv = self.ev(n["e"], fr)
             finally:
                 self.ctx.pop()
-            alts.append((Not(c), evv))
+            if n["e"].get("ty") != "!":
+                alts.append((Not(c), evv))
         elif n.get("e") is None and c is not True:
             alts.append((Not(c), UNIT))
         if len(alts) == 1:
             return alts[0][1]
+        if not alts:
+            return UNIT
         return PhiV(alts)
 
     def ev_LetCond(self, n, fr):
@@ -789,9 +839,12 @@ class Interp:
                 bv = self.ev(a["body"], fr)
             finally:
                 self.ctx.pop()
-            alts.append((c, bv))
+            if a["body"].get("ty") != "!":
+                alts.append((c, bv))
             if c is True:
                 break
+        if len(alts) == 1:
+            return alts[0][1]
         if len(alts) == 1 and alts[0][0] is True:
             return alts[0][1]
         return PhiV(alts)
@@ -846,6 +899,12 @@ class Interp:
             elif e[0] == "rep":
                 fs.append(atom("opaque", "in-loop@%s" % n.get("sp")))
         c = And(And(*fs), Not(act.ret) if act.ret is not False else True)
+        v0 = core(v)
+        if isinstance(v0, StructV) and v0.variant == "Err":
+            # a failure: no artefact exists on this path; emission conditions are "given success"
+            act.fails.append((c, v, n))
+            self.fails.append((c, v, n, self.cur_fn()))
+            return UNIT
         act.rets.append((c, v))
         act.ret = Or(act.ret, c)
         return UNIT
@@ -1011,6 +1070,36 @@ class Interp:
             return Via(last, a0, inst or callee)
         if callee.endswith("Tag::context") and len(args) == 1:
             return TagV("ctx", args[0])
+        # closures handed to foreign adaptors (map, fold, filter_map, for_each, map_err, ...):
+        # apply them once to symbolic arguments so that their callees and places are visible
+        if any(isinstance(core(a), ClosureV) for a in args):
+            new_args = []
+            for a in args:
+                ca = core(a)
+                if isinstance(ca, ClosureV):
+                    np_ = len(ca.node["params"])
+                    if last in ("map_err", "or_else", "unwrap_or_else", "ok_or_else", "map", "and_then", "then", "filter_map", "find_map", "find", "filter", "for_each", "flat_map", "position", "retain", "all", "any") or np_ == 1:
+                        el = args[0] if args else Unknown("recv")
+                        rn_ty = (n.get("recv") or {}).get("ty", "")
+                        if last in ("map_err",):
+                            sym = [Sel(el, "#Err.0")]
+                        elif last in ("map", "and_then") and ("Option<" in rn_ty[:40] or "Result<" in rn_ty[:40]):
+                            sym = [Sel(el, "?")]
+                        else:
+                            sym = [Sel(el, "[]")]
+                        sym = (sym + [Unknown("arg")] * np_)[:np_]
+                    elif last in ("fold", "try_fold") and np_ == 2:
+                        sym = [Unknown("acc"), Sel(args[0], "[]")]
+                    else:
+                        sym = [Unknown("arg%d" % i) for i in range(np_)]
+                    self.ctx.append(("rep", args[0] if args else Unknown("?")) if last in ("fold", "for_each", "filter_map", "map", "retain", "find", "find_map", "filter", "flat_map") and not ("Option<" in (n.get("recv") or {}).get("ty", "")[:40] or "Result<" in (n.get("recv") or {}).get("ty", "")[:40]) else ("cond", True))
+                    try:
+                        new_args.append(Via("closure-result", self.call_closure(ca, sym)))
+                    finally:
+                        self.ctx.pop()
+                else:
+                    new_args.append(a)
+            args = new_args
         # a foreign call given a writer we cannot see into
         for a in args:
             if isinstance(a, WriterV):
